@@ -376,6 +376,9 @@ def _len(m, st, callee, args, t):
 
 @model("core::str::<impl str>::is_empty", "alloc::string::String::is_empty")
 def _is_empty(m, st, callee, args, t):
+    v = deref_all(m, st, args[0])
+    if isinstance(v, Opq) and v.kind == "buf" and hasattr(m.world, "buf_is_empty"):
+        return m.world.buf_is_empty(m, st, v)
     return m.world.str_is_empty(st, _content(m, st, args[0]))
 
 
@@ -626,3 +629,29 @@ def _default_ne(m, st, callee, args, t):
     if isinstance(a, Str) and isinstance(b, Str):
         return boolean(not m.world.str_eq(st, a, b))
     return None
+
+
+@model("core::str::<impl str>::char_indices")
+def _char_indices(m, st, callee, args, t):
+    return Opq("char_indices", (_content(m, st, args[0]),))
+
+
+@model("<core::str::iter::CharIndices<'a> as core::iter::traits::iterator::Iterator>::next")
+def _char_indices_next(m, st, callee, args, t):
+    return m.world.char_indices_next(m, st, args[0])
+
+
+@model("core::str::<impl str>::ends_with")
+def _ends_with(m, st, callee, args, t):
+    h = getattr(m.world, "str_ends_with", None)
+    if h is None:
+        return None
+    return h(m, st, _content(m, st, args[0]) if not (isinstance(deref_all(m, st, args[0]), Opq)) else deref_all(m, st, args[0]), args[1])
+
+
+@model("core::str::<impl str>::starts_with")
+def _starts_with(m, st, callee, args, t):
+    h = getattr(m.world, "str_starts_with", None)
+    if h is None:
+        return None
+    return h(m, st, deref_all(m, st, args[0]), args[1])
